@@ -300,7 +300,7 @@ class Array:
                 raise ValueError(f"Cannot extend from array with typecode {iterable.typecode}.")
             # The typecode gives the kind of item; its width is whatever this platform's array module uses.
             other_dtype = dtype_register.get_dtype(name_value[0], iterable.itemsize * 8, scale=None)
-            if self._dtype.name != other_dtype.name or self._dtype.bitlength != other_dtype.length:
+            if self._dtype.name != other_dtype.name or self._dtype.bitlength != other_dtype.bitlength:
                 raise ValueError(
                     f"Cannot extend an Array with format '{self._dtype}' from an array with typecode '{iterable.typecode}'.")
             self.data += iterable.tobytes()
